@@ -287,7 +287,10 @@ fn main() {
                                 match g.st[t].clone() {
                                     WState::Finished => break,
                                     WState::Parked(p) => {
-                                        if p == target && grants > 0 {
+                                        // "next" = exactly one park-to-park segment; a snapshot point of a query
+                                        // (find.txn) stands for the model's read.txn
+                                        let reached = p == target || (target == "read.txn" && p == "find.txn");
+                                        if grants > 0 && (reached || target == "next") {
                                             break;
                                         }
                                         if grants >= 25 {
